@@ -393,8 +393,10 @@ fn plan_of(tokens: &[String]) -> Vec<ReqPlan> {
     plan
 }
 
-fn scripted_session(rt: &tokio::runtime::Runtime, start: (u64, u64), full: u64, plan: Vec<ReqPlan>) -> (Vec<(u64, u64, bool)>, bool, String, u64) {
+fn scripted_session(rt: &tokio::runtime::Runtime, start: (u64, u64), full: u64, plan: Vec<ReqPlan>) -> (Vec<(u64, u64, bool)>, bool, String, u64, Vec<Value>) {
     let deliveries: Arc<Mutex<Vec<(u64, u64, bool)>>> = Arc::new(Mutex::new(Vec::new()));
+    // property-level recording of the session (same vocabulary as the projected recordings of `record`)
+    let log: Arc<Mutex<Vec<Value>>> = Arc::new(Mutex::new(vec![json!({"ev": "init", "vol": start.0, "seq": start.1, "full": full, "chunks": []})]));
     let extra_requests = Arc::new(Mutex::new(0u64));
     let mut outcome = (false, String::new());
     rt.block_on(async {
@@ -412,59 +414,80 @@ fn scripted_session(rt: &tokio::runtime::Runtime, start: (u64, u64), full: u64, 
         let (tx, rx): (Sender<(ChunkIdentifier, Chunk<'static>)>, Receiver<(ChunkIdentifier, Chunk<'static>)>) = channel();
         let (stop_tx, stop_rx) = channel::<bool>();
         let rx_cell: Arc<Mutex<Option<Receiver<(ChunkIdentifier, Chunk<'static>)>>>> = Arc::new(Mutex::new(Some(rx)));
-        let drain = { let (deliveries, world, rx_cell) = (deliveries.clone(), world.clone(), rx_cell.clone()); move || {
+        let drain = { let (deliveries, world, rx_cell, log) = (deliveries.clone(), world.clone(), rx_cell.clone(), log.clone()); move || {
             if let Some(rx) = rx_cell.lock().expect("rx").as_ref() {
                 for (id, chunk) in rx.try_iter() {
                     let w = world.lock().expect("world");
                     let vol = id.volume().as_number() as u64;
-                    let (seq, ok) = match w.uploaded.get(&(vol, id.name().to_string())) { Some((bytes, lm, seq)) => (*seq, chunk.data() == bytes.as_slice() && id.site() == SITE && id.date_time() == Some(*lm)), None => (0, false) };
+                    let (seq, ok) = match w.uploaded.get(&(vol, id.name().to_string())) { Some((bytes, lm, seq)) => (*seq, chunk.data() == bytes.as_slice() && id.site() == SITE && id.date_time() == Some(*lm)), None => (id.sequence().unwrap_or(0) as u64, false) };
                     deliveries.lock().expect("d").push((vol, seq, ok));
+                    log.lock().expect("log").push(json!({"ev": "deliver", "vol": vol, "seq": seq, "data_ok": ok, "id_ok": ok}));
                 }
             }
         } };
         {
-            let (world, rx_cell, drain, extra) = (world.clone(), rx_cell.clone(), drain.clone(), extra_requests.clone());
+            let (world, rx_cell, drain, extra, log) = (world.clone(), rx_cell.clone(), drain.clone(), extra_requests.clone(), log.clone());
             let counter = Arc::new(Mutex::new(0usize));
             sim.set_handler(Some(Box::new(move |req: &Req, s: &mut SimState| {
                 if req.is_list() && req.q("max-keys") == Some("1") { return None; }
                 drain();
                 let k = { let mut c = counter.lock().expect("c"); *c += 1; *c - 1 };
                 let p = match plan.get(k) { Some(p) => p.clone(), None => { *extra.lock().expect("e") += 1; ReqPlan::default() } };
-                if p.stop { let _ = stop_tx.send(true); }
-                if p.drop { *rx_cell.lock().expect("rx") = None; }
-                for _ in 0..p.uploads { let mut w = world.lock().expect("world"); let nx = if w.up == (0, 0) { (1, 1) } else { succ(w.up) }; w.upload(s, nx); }
-                if p.fault && !req.is_list() { return Some(Resp::xml(500, "<Error><Code>InternalError</Code></Error>".into())); }
+                if k > 20_000 { if k == 20_001 { log.lock().expect("log").push(json!({"ev": "runaway", "requests": k})); } return Some(Resp::xml(500, "<Error><Code>Runaway</Code></Error>".into())); }
+                if p.stop { let _ = stop_tx.send(true); log.lock().expect("log").push(json!({"ev": "stop"})); }
+                if p.drop { *rx_cell.lock().expect("rx") = None; log.lock().expect("log").push(json!({"ev": "drop"})); }
+                for _ in 0..p.uploads { let mut w = world.lock().expect("world"); let nx = if w.up == (0, 0) { (1, 1) } else { succ(w.up) }; w.upload(s, nx); log.lock().expect("log").push(json!({"ev": "upload", "vol": nx.0, "seq": nx.1, "rads": []})); }
+                let fault = p.fault && !req.is_list();
+                // a fault tick only counts as one when the object was there (otherwise the miss is the bucket's answer)
+                let exists = req.is_list() || s.objects.contains_key(&format!("{BUCKET}/{}", req.bucket_key().1));
+                log.lock().expect("log").push(json!({"ev": "req", "fault": fault && exists}));
+                if fault { return Some(Resp::xml(500, "<Error><Code>InternalError</Code></Error>".into())); }
                 None
             })));
         }
         let r = poll_chunks(SITE, tx, None, stop_rx).await;
         drain();
         outcome = (r.is_ok(), r.err().map(|e| format!("{e:?}")).unwrap_or_default());
+        log.lock().expect("log").push(json!({"ev": "return", "ok": outcome.0, "err": outcome.1.clone()}));
         sim.set_handler(None);
     });
     let d = deliveries.lock().expect("d").clone();
     let e = *extra_requests.lock().expect("e");
-    (d, outcome.0, outcome.1, e)
+    let l = log.lock().expect("log").clone();
+    (d, outcome.0, outcome.1, e, l)
 }
 
 fn replay(args: &Args) {
     let vectors = read_ndjson(args.input.as_deref().unwrap_or(""));
     let mut res = Results::create(args.out.as_deref().unwrap_or(""));
-    for v in &vectors {
+    for (vi, v) in vectors.iter().enumerate() {
         let tokens: Vec<String> = v["script"].as_array().map(|a| a.iter().map(|t| t.as_str().unwrap_or("").to_string()).collect()).unwrap_or_default();
         let start = (v["start"][0].as_u64().unwrap_or(1), v["start"][1].as_u64().unwrap_or(1));
         let full = v["start"][2].as_u64().unwrap_or(0);
         let want: Vec<(u64, u64)> = v["hist"].as_array().map(|a| a.iter().map(|h| (h[0].as_u64().unwrap_or(0), h[1].as_u64().unwrap_or(0))).collect()).unwrap_or_default();
         res.case(hash_value(v), want.len() >= 2);
         let rt = runtime();
-        let (got, ok, err, extra) = scripted_session(&rt, start, full, plan_of(&tokens));
+        progress(|| format!("poll_chunks scripted session {vi} {}", tokens.join("")));
+        let (got, ok, err, extra, events) = scripted_session(&rt, start, full, plan_of(&tokens));
+        // A disagreement with the script is not yet a verdict: the script is keyed on the request structure of
+        // Poll.tla, which the property does not fix.  The session's own recording is written out and TLC decides
+        // (property reading of Trace_Poll) whether what was OBSERVED violates C18; otherwise it is drift.
+        let pending = |res: &mut Results, sig: &str, detail: String, small: &Value| {
+            let path = format!("{}.script{}.proj", args.out.as_deref().unwrap_or("replay"), vi);
+            let mut tr = TraceOut::create(&path);
+            for e in &events { tr.ev(e.clone()); }
+            tr.finish();
+            let mut case = small.clone();
+            case["trace"] = json!(path);
+            res.mismatch("pending", sig, detail, case);
+        };
         let small = json!({"start": v["start"], "script": tokens.join(""), "expected": {"deliveries": v["hist"], "result": v["result"], "why": v["why"]}, "got": {"deliveries": got.iter().map(|d| json!([d.0, d.1])).collect::<Vec<_>>(), "ok": ok, "err": err}});
         let got_pos: Vec<(u64, u64)> = got.iter().map(|d| (d.0, d.1)).collect();
         if got_pos != want {
             let sig = if got_pos.len() > want.len() && got_pos[..want.len()] == want[..] { "C18/script/extra_delivery" } else if got_pos.len() < want.len() && want[..got_pos.len()] == got_pos[..] { "C18/script/missing_delivery" } else { "C18/script/wrong_delivery" };
-            res.mismatch("violation", sig, format!("expected {:?} got {:?}", want, got_pos), small.clone());
+            pending(&mut res, sig, format!("expected {:?} got {:?}", want, got_pos), &small);
         } else if ok != (v["result"] == json!("ok")) {
-            res.mismatch("violation", "C18/script/outcome", format!("expected {} ({}) got ok={} {}", v["result"], v["why"], ok, err), small.clone());
+            pending(&mut res, "C18/script/outcome", format!("expected {} ({}) got ok={} {}", v["result"], v["why"], ok, err), &small);
         }
         if got.iter().any(|d| !d.2) { res.mismatch("violation", "C18/script/payload_identity", "a delivered chunk differs from the uploaded object or its label".into(), small.clone()); }
         if extra > 0 { res.mismatch("drift", "C18/script/extra_requests", format!("{extra} requests beyond the script"), small.clone()); }
